@@ -404,7 +404,7 @@ class ChildKill(Sub):
                 db = os.path.join(d, "nostr.sqlite3")
                 cf = os.path.join(d, "case.json")
                 json.dump({"db": db, "events": history, "i": i, "k": k}, open(cf, "w"))
-                env = dict(os.environ, PYTHONPATH=bootstrap.VERIF)
+                env = dict(os.environ, PYTHONPATH=bootstrap.VERIF, PYTHONDONTWRITEBYTECODE="1")
                 p = subprocess.run([sys.executable, "-m", "vlib.crashchild", cf], cwd=bootstrap.VERIF, env=env,
                                    stdout=subprocess.PIPE, stderr=subprocess.STDOUT, timeout=120)
                 if p.returncode != 137:
